@@ -1,7 +1,7 @@
 // C18, nesting depth as a dimension of the round-trip universe.
 //
 // The Sig(2,2) universe stops at depth 2 and the ladders family only judges
-// totality. This family round-trips types nested 1..maxD deep (seed C18-17 put a
+// totality. This family round-trips types nested 1..maxD deep (seed C18-16 put a
 // depth limit of 16 into the IDL type parser only: the printers and the signature
 // parser have none, so a deeper type no longer came back).
 package main
